@@ -57,15 +57,25 @@
 //! (`u-not-occupied-capacity-of-live-set`; holds with equality from genesis on).
 use crate::common::*;
 use crate::node::*;
-use ckb_chain_spec::consensus::Consensus;
-use ckb_dao_utils::{extract_dao_data, pack_dao_data};
+use ckb_chain_spec::consensus::{Consensus, ConsensusBuilder, ProposalWindow, build_genesis_epoch_ext};
+use ckb_dao::DaoCalculator;
+use ckb_dao_utils::{extract_dao_data, genesis_dao_data, pack_dao_data};
 use ckb_db_schema::COLUMN_CELL;
+use ckb_merkle_mountain_range::leaf_index_to_mmr_size;
 use ckb_reward_calculator::RewardCalculator;
 use ckb_store::{ChainDB, ChainStore};
-use ckb_types::core::{BlockView, Capacity, EpochExt, Ratio, TransactionView};
-use ckb_types::packed::{self, Byte32, CellOutput, OutPoint, ProposalShortId, Script};
+use ckb_test_chain_utils::{always_success_cell, create_always_success_tx};
+use ckb_types::core::cell::{BlockCellProvider, OverlayCellProvider, ResolvedTransaction, resolve_transaction};
+use ckb_types::core::{
+    BlockBuilder, BlockView, Capacity, DepType, EpochExt, EpochNumberWithFraction, HeaderView, Ratio, ScriptHashType,
+    TransactionBuilder, TransactionView, capacity_bytes,
+};
+use ckb_types::packed::{self, Byte32, CellDep, CellInput, CellOutput, OutPoint, ProposalShortId, Script};
 use ckb_types::prelude::*;
+use ckb_types::utilities::DIFF_TWO;
+use ckb_types::utilities::merkle_mountain_range::ChainRootMMR;
 use std::collections::{HashMap, HashSet};
+use std::sync::Arc;
 use std::io::{BufRead, BufReader, Write};
 use std::path::PathBuf;
 use std::process::{Child, ChildStdin, ChildStdout, Command, Stdio};
@@ -142,6 +152,10 @@ struct TxRec {
     tx: TransactionView,
     in_caps: Vec<u64>,
     in_cells: Vec<(CellOutput, u64)>,
+    /// NervosDAO phase-2 inputs: input index -> (deposit block label, withdrawing block label)
+    dao_in: HashMap<usize, (u64, u64)>,
+    /// `+1 shannon` sibling of a NervosDAO phase-2 transaction (same inputs; must be rejected)
+    sibling: Option<TransactionView>,
 }
 
 struct BlkRec {
@@ -155,6 +169,8 @@ struct BlkRec {
     ids: Vec<u64>,
     /// the `blk` line of the model's abstract chain (fees and dao are the model's answers)
     blk_line: String,
+    /// the `lock` line that follows it (linear scenarios: the cellbase witness lock of this block)
+    lock_line: Option<String>,
     /// indices into the case's line buffer whose implementation answer is the node's verdict on
     /// this block / its ext row, still to be filled when the block was only stored (side branch)
     pend_verdict: Vec<usize>,
@@ -200,6 +216,7 @@ fn verdict(r: &Result<bool, String>) -> String {
         Err(e) if e.contains("InvalidRewardAmount") => "err-amount".into(),
         Err(e) if e.contains("InvalidRewardTarget") => "err-target".into(),
         Err(e) if e.contains("InvalidDAO") => "err-dao".into(),
+        Err(e) if e.contains("InvalidOutputQuantity") => "err-quantity".into(),
         Err(_) => "err-other".into(),
     }
 }
@@ -222,6 +239,20 @@ fn spec_g2((start, len, _b, _r): (u64, u64, u64, u64), ser: u64, n: u64) -> u128
     (ser / len) as u128 + if n >= start && (n as u128) < start as u128 + r { 1 } else { 0 }
 }
 
+/// HeaderChecker over the node's main chain
+struct TipHeaders<'a> {
+    db: &'a ChainDB,
+}
+
+impl ckb_types::core::cell::HeaderChecker for TipHeaders<'_> {
+    fn check_valid(&self, block_hash: &Byte32) -> Result<(), ckb_types::core::error::OutPointError> {
+        match self.db.get_block_number(block_hash) {
+            Some(n) if self.db.get_block_hash(n).as_ref() == Some(block_hash) => Ok(()),
+            _ => Err(ckb_types::core::error::OutPointError::InvalidHeader(block_hash.clone())),
+        }
+    }
+}
+
 #[derive(Clone, Debug)]
 struct ScnCfg {
     close: u64,
@@ -231,6 +262,11 @@ struct ScnCfg {
     ser: u64,
     epoch_len: u64,
     genesis_cells: u64,
+    /// `Some(primary epoch reward)`: a LINEAR scenario (own consensus, no ChainBuilder, per-block
+    /// miner locks, every block extends the node's tip)
+    per: Option<u64>,
+    /// linear scenario whose genesis carries the bundled NervosDAO script as a type-script code cell
+    dao: bool,
 }
 
 // ----------------------------------------------------------------------------------------- scenario
@@ -255,6 +291,108 @@ struct Scn {
     cellbase_spends: u64,
     all_bits_done: bool,
     dead: bool,
+    /// linear scenarios: the distinct cellbase witness locks, lock id = index (0 = the
+    /// always-success lock without args, which is also the genesis witness lock)
+    lock_scripts: Vec<Script>,
+    /// tx label -> label of the block that committed it
+    committed_in: HashMap<u64, u64>,
+    /// NervosDAO: cell dep of the code cell and the type script of NervosDAO cells
+    dao_dep: Option<CellDep>,
+    dao_type: Option<Script>,
+}
+
+/// The consensus of a linear scenario: `make_consensus` (hnode/src/node.rs) with a chosen primary
+/// epoch reward and, optionally, one more genesis transaction carrying the bundled NervosDAO
+/// binary (`ckb_resource`: `specs/cells/dao`, from ckb-system-scripts) as a code cell with a type
+/// script; `dao_type_hash` is that type script's hash (as `ConsensusBuilder::build` derives it
+/// from output 2 of the genesis cellbase on the public chains).
+fn make_linear_consensus(cfg: &ScnCfg) -> (Consensus, Option<(CellDep, Script)>) {
+    let (_, _, always_success_script) = always_success_cell();
+    let tx = create_always_success_tx();
+    let mut transactions: Vec<TransactionView> = (0..cfg.genesis_cells)
+        .map(|i| {
+            let data = ckb_types::bytes::Bytes::from(i.to_le_bytes().to_vec());
+            TransactionBuilder::default()
+                .input(CellInput::new(OutPoint::null(), 0))
+                .output(CellOutput::new_builder().capacity(capacity_bytes!(50_000)).lock(always_success_script.clone()).build())
+                .output_data(data)
+                .build()
+        })
+        .collect();
+    let mut dao = None;
+    if cfg.dao {
+        let bin = ckb_resource::Resource::bundled("specs/cells/dao".to_string()).get().expect("bundled NervosDAO binary (ckb-system-scripts)");
+        let data = ckb_types::bytes::Bytes::from(bin.into_owned());
+        let code_type = Script::new_builder()
+            .code_hash(ckb_chain_spec::consensus::TYPE_ID_CODE_HASH.pack())
+            .hash_type(ScriptHashType::Type)
+            .args(ckb_types::bytes::Bytes::from(b"verif-c06-nervos-dao-code-cell!!".to_vec()).pack())
+            .build();
+        let out = CellOutput::new_builder().lock(always_success_script.clone()).type_(Some(code_type.clone()).pack()).build();
+        let cap = out.occupied_capacity(Capacity::bytes(data.len()).unwrap()).unwrap();
+        let code_tx = TransactionBuilder::default()
+            .input(CellInput::new(OutPoint::null(), 0))
+            .output(out.as_builder().capacity(cap).build())
+            .output_data(data)
+            .build();
+        let dep = CellDep::new_builder().out_point(OutPoint::new(code_tx.hash(), 0)).dep_type(DepType::Code).build();
+        let dao_type = Script::new_builder().code_hash(code_type.calc_script_hash()).hash_type(ScriptHashType::Type).build();
+        transactions.push(code_tx);
+        dao = Some((dep, dao_type));
+    }
+    let mut all: Vec<&TransactionView> = vec![&tx];
+    all.extend(transactions.iter());
+    let gdao = genesis_dao_data(all).unwrap();
+    let genesis_block = BlockBuilder::default()
+        .dao(gdao)
+        .compact_target(DIFF_TWO)
+        .epoch(EpochNumberWithFraction::new_unchecked(0, 0, 0))
+        .transaction(tx)
+        .transactions(transactions)
+        .build();
+    let epoch_reward = Capacity::shannons(cfg.per.expect("linear scenario"));
+    let duration_target = 8 * cfg.epoch_len;
+    let genesis_epoch_ext = build_genesis_epoch_ext(epoch_reward, DIFF_TWO, cfg.epoch_len, duration_target, (1, 40));
+    let mut consensus = ConsensusBuilder::new(genesis_block, genesis_epoch_ext)
+        .initial_primary_epoch_reward(epoch_reward)
+        .epoch_duration_target(duration_target)
+        .permanent_difficulty_in_dummy(true)
+        .tx_proposal_window(ProposalWindow(cfg.close, cfg.far))
+        .cellbase_maturity(EpochNumberWithFraction::new(0, 0, 1))
+        .build();
+    if let Some((_, t)) = &dao {
+        consensus.dao_type_hash = t.code_hash();
+    }
+    (consensus, dao)
+}
+
+/// `<kind><args length>.<id>`: kind `a` = the always-success code hash (spendable), `x` = another
+/// code hash derived from the id (never spent); the args are `<args length>` bytes derived from the id
+fn lock_from_spec(spec: &str) -> Script {
+    let (kind, rest) = spec.split_at(1);
+    let (l, id) = rest.split_once('.').expect("malformed lock spec: <kind><len>.<id>");
+    let l: usize = l.parse().expect("malformed lock spec: args length");
+    let id: u64 = id.parse().expect("malformed lock spec: id");
+    let mut x = id.wrapping_mul(0x9e3779b97f4a7c15) ^ 0xc06c06c06;
+    let mut next = || {
+        x ^= x << 13;
+        x ^= x >> 7;
+        x ^= x << 17;
+        (x >> 24) as u8
+    };
+    let (_, _, always_success_script) = always_success_cell();
+    match kind {
+        "a" => {
+            let args: Vec<u8> = (0..l).map(|_| next()).collect();
+            always_success_script.clone().as_builder().args(ckb_types::bytes::Bytes::from(args).pack()).build()
+        }
+        "x" => {
+            let ch: Vec<u8> = (0..32).map(|_| next()).collect();
+            let args: Vec<u8> = (0..l).map(|_| next()).collect();
+            Script::new_builder().code_hash(Byte32::from_slice(&ch).unwrap()).hash_type(ScriptHashType::Data).args(ckb_types::bytes::Bytes::from(args).pack()).build()
+        }
+        _ => panic!("malformed lock spec kind {kind}"),
+    }
 }
 
 struct Ctx<'a> {
@@ -268,12 +406,13 @@ impl Scn {
     fn start(cfg: ScnCfg, opts_out: &std::path::Path, ctx: &mut Ctx, node_line: &str) -> Scn {
         let base = scratch_dir(opts_out, "c06node");
         let ncfg = NodeCfg { epoch_len: cfg.epoch_len, window: (cfg.close, cfg.far), genesis_cells: cfg.genesis_cells, maturity_epochs: 0, with_pool: false, tx_pool: None };
-        let mut consensus = make_consensus(&ncfg);
+        let (mut consensus, dao) = if cfg.per.is_some() { make_linear_consensus(&cfg) } else { (make_consensus(&ncfg), None) };
         consensus.proposer_reward_ratio = Ratio::new(cfg.numer, cfg.denom);
         consensus.secondary_epoch_reward = Capacity::shannons(cfg.ser);
         let node = Node::start(&base.join("node"), consensus.clone(), &ncfg);
         let builder = ChainBuilder::new(consensus.clone(), &base.join("builder"));
-        let gcells = genesis_cells(&consensus);
+        let mut gcells = genesis_cells(&consensus);
+        gcells.truncate(cfg.genesis_cells as usize);
         let mut cells = HashMap::new();
         let g = consensus.genesis_block().clone();
         for tx in g.transactions().iter() {
@@ -299,6 +438,10 @@ impl Scn {
             cellbase_spends: 0,
             all_bits_done: false,
             dead: false,
+            lock_scripts: vec![always_success_cell().2.clone()],
+            committed_in: HashMap::new(),
+            dao_dep: dao.as_ref().map(|d| d.0.clone()),
+            dao_type: dao.map(|d| d.1),
         };
         s.say(ctx, node_line, Some("ok".into()));
         // genesis joins the abstract chain
@@ -307,7 +450,7 @@ impl Scn {
         let blk_line = format!("blk 0 - - - - {} {} {} {} {} {} {} {}", ge.0, ge.1, ge.2, ge.3, gd.0, gd.1, gd.2, gd.3);
         s.say(ctx, &blk_line, Some("ok".into()));
         s.model_chain.push(0);
-        s.blocks.insert(0, BlkRec { label: 0, parent: 0, number: 0, block: g.clone(), props: vec![], uprops: vec![], ids: vec![], blk_line, pend_verdict: vec![], pend_fee: vec![], compared: true });
+        s.blocks.insert(0, BlkRec { label: 0, parent: 0, number: 0, block: g.clone(), props: vec![], uprops: vec![], ids: vec![], blk_line, lock_line: None, pend_verdict: vec![], pend_fee: vec![], compared: true });
         // the statement that holds at genesis: U(genesis) = occupied capacity of the genesis live set
         let live = s.live_occupied();
         if live != gd.3 as u128 {
@@ -404,7 +547,7 @@ impl Scn {
         }
         let in_cells = inputs.iter().map(|(op, _)| self.cells.get(op).unwrap().clone()).collect();
         self.short.insert(tx.proposal_short_id(), label);
-        self.txs.insert(label, TxRec { tx, in_caps: inputs.iter().map(|x| x.1).collect(), in_cells });
+        self.txs.insert(label, TxRec { tx, in_caps: inputs.iter().map(|x| x.1).collect(), in_cells, dao_in: HashMap::new(), sibling: None });
     }
 
     fn exec_ub(&mut self, ts: &[&str]) {
@@ -420,14 +563,182 @@ impl Scn {
         self.uncles.insert(label, (u, props));
     }
 
+    /// NervosDAO transactions (scenarios whose genesis carries the DAO code cell):
+    /// ```text
+    /// dtx <label> dep <input> <capacity> <fee>    deposit: output 0 = NervosDAO cell (8 zero bytes), output 1 = change
+    /// dtx <label> prep <dep tx> <fee input> <fee> phase 1: input 0 = the deposit cell, output 0 = the withdrawing
+    ///                                             cell (data = deposit block number), header dep = deposit block
+    /// dtx <label> wd <prep tx> <fee>              phase 2: input 0 = the withdrawing cell (since = deposit epoch +
+    ///                                             180k epochs), output 0 = MODEL's maximum withdraw − fee;
+    ///                                             a sibling paying 1 shannon more than the maximum is kept
+    /// ```
+    fn exec_dtx(&mut self, ts: &[&str], ctx: &mut Ctx) {
+        assert!(ts.len() >= 3, "malformed dtx line");
+        let label: u64 = ts[1].parse().expect("tx label");
+        assert!(!self.txs.contains_key(&label), "malformed: duplicate tx label");
+        let dao_dep = self.dao_dep.clone().expect("malformed: dtx in a scenario without the NervosDAO cell");
+        let dao_type = self.dao_type.clone().unwrap();
+        let (_, _, lock) = always_success_cell();
+        let lock = lock.clone();
+        let salt_data = ckb_types::bytes::Bytes::from(label.to_le_bytes().to_vec());
+        let resolve_ref = |s: &Scn, r: &CellRef| -> OutPoint {
+            match r {
+                CellRef::G(i) => s.gcells.get(*i).expect("malformed: genesis cell index").0.clone(),
+                CellRef::T(l, k) => OutPoint::new(s.txs.get(l).expect("malformed: unknown tx label").tx.hash(), *k),
+                CellRef::C(b) => OutPoint::new(s.blocks.get(b).expect("malformed: unknown block label").block.transactions()[0].hash(), 0),
+            }
+        };
+        let base = TransactionBuilder::default().cell_dep(always_success_dep()).cell_dep(dao_dep);
+        let mut dao_in = HashMap::new();
+        let mut sibling = None;
+        let (tx, in_ops): (TransactionView, Vec<OutPoint>) = match ts[2] {
+            "dep" => {
+                assert!(ts.len() == 6, "malformed dtx dep line");
+                let op = resolve_ref(self, &parse_cellref(ts[3]));
+                let cap: u64 = ts[4].parse().expect("capacity");
+                let fee: u64 = ts[5].parse().expect("fee");
+                let in_cap = cap_of(&self.cells.get(&op).expect("malformed: input cell does not exist").0);
+                assert!(in_cap >= cap + fee + 49 * 100_000_000, "malformed: deposit exceeds the input");
+                let tx = base
+                    .input(CellInput::new(op.clone(), 0))
+                    .output(CellOutput::new_builder().capacity(Capacity::shannons(cap)).lock(lock.clone()).type_(Some(dao_type).pack()).build())
+                    .output_data(ckb_types::bytes::Bytes::from(vec![0u8; 8]))
+                    .output(CellOutput::new_builder().capacity(Capacity::shannons(in_cap - cap - fee)).lock(lock.clone()).build())
+                    .output_data(salt_data)
+                    .build();
+                (tx, vec![op])
+            }
+            "prep" => {
+                assert!(ts.len() == 6, "malformed dtx prep line");
+                let dep: u64 = ts[3].parse().expect("tx label");
+                let fop = resolve_ref(self, &parse_cellref(ts[4]));
+                let fee: u64 = ts[5].parse().expect("fee");
+                let dop = OutPoint::new(self.txs.get(&dep).expect("malformed: unknown deposit tx").tx.hash(), 0);
+                let (dcell, _) = self.cells.get(&dop).expect("deposit cell").clone();
+                let dblk = &self.blocks[self.committed_in.get(&dep).expect("malformed: the deposit is not committed yet")].block;
+                let f_cap = cap_of(&self.cells.get(&fop).expect("malformed: input cell does not exist").0);
+                assert!(f_cap >= fee + 49 * 100_000_000, "malformed: fee exceeds the input");
+                let tx = base
+                    .header_dep(dblk.hash())
+                    .input(CellInput::new(dop.clone(), 0))
+                    .input(CellInput::new(fop.clone(), 0))
+                    .output(dcell)
+                    .output_data(ckb_types::bytes::Bytes::from(dblk.number().to_le_bytes().to_vec()))
+                    .output(CellOutput::new_builder().capacity(Capacity::shannons(f_cap - fee)).lock(lock.clone()).build())
+                    .output_data(salt_data)
+                    .build();
+                (tx, vec![dop, fop])
+            }
+            "wd" => {
+                assert!(ts.len() == 5, "malformed dtx wd line");
+                let prep: u64 = ts[3].parse().expect("tx label");
+                let fee: u64 = ts[4].parse().expect("fee");
+                let ptx = &self.txs.get(&prep).expect("malformed: unknown prepare tx");
+                let dep_label = *self.txs.iter().find(|(_, t)| ptx.tx.inputs().get(0).map(|i| i.previous_output().tx_hash()) == Some(t.tx.hash())).expect("deposit of the prepare tx").0;
+                let wop = OutPoint::new(ptx.tx.hash(), 0);
+                let (wcell, wdata) = self.cells.get(&wop).expect("withdrawing cell").clone();
+                let dl = *self.committed_in.get(&dep_label).expect("deposit committed");
+                let wl = *self.committed_in.get(&prep).expect("malformed: the prepare tx is not committed yet");
+                let (dh, wh) = (self.blocks[&dl].block.header(), self.blocks[&wl].block.header());
+                // the model's maximum withdraw (model in the loop) against the repo's calculator
+                let impl_max = {
+                    let store: &ChainDB = self.node().store();
+                    let loader = store.borrow_as_data_loader();
+                    match DaoCalculator::new(&self.consensus, &loader).calculate_maximum_withdraw(&wcell, Capacity::bytes(wdata as usize).unwrap(), &dh.hash(), &wh.hash()) {
+                        Ok(c) => format!("ok {}", c.as_u64()),
+                        Err(e) => format!("err {e:?}"),
+                    }
+                };
+                let wi = self.say(ctx, &format!("withdraw {} {} {} {} {}", cell_str(&wcell, wdata), dh.number(), dao_tuple(&dh.dao()).0, wh.number(), dao_tuple(&wh.dao()).0), Some(impl_max));
+                let max: u64 = self.model_of(wi).strip_prefix("ok ").and_then(|v| v.parse().ok()).unwrap_or_else(|| panic!("malformed scenario: the model has no maximum withdraw: {}", self.model_of(wi)));
+                assert!(max > fee + 61 * 100_000_000, "malformed: fee exceeds the withdrawal");
+                // since: absolute epoch, deposit epoch + ceil(deposited epochs / 180) * 180
+                let (de, we) = (dh.epoch(), wh.epoch());
+                let mut deposited = we.number() - de.number();
+                if we.index() * de.length() > de.index() * we.length() {
+                    deposited += 1;
+                }
+                let lock_epochs = deposited.div_ceil(180) * 180;
+                let since = 0x2000_0000_0000_0000u64 | EpochNumberWithFraction::new(de.number() + lock_epochs, de.index(), de.length()).full_value();
+                let witness = packed::WitnessArgs::new_builder().input_type(Some(ckb_types::bytes::Bytes::from(0u64.to_le_bytes().to_vec())).pack()).build();
+                let mk = |cap: u64| {
+                    base.clone()
+                        .header_dep(dh.hash())
+                        .header_dep(wh.hash())
+                        .input(CellInput::new(wop.clone(), since))
+                        .witness(witness.as_bytes().pack())
+                        .output(CellOutput::new_builder().capacity(Capacity::shannons(cap)).lock(lock.clone()).build())
+                        .output_data(salt_data.clone())
+                        .build()
+                };
+                dao_in.insert(0usize, (dl, wl));
+                sibling = Some(mk(max + 1));
+                ctx.out.count("dao-withdrawals-built-from-the-models-maximum");
+                (mk(max - fee), vec![wop])
+            }
+            other => panic!("malformed dtx kind {other}"),
+        };
+        for (i, (o, d)) in tx.outputs_with_data_iter().enumerate() {
+            self.cells.insert(OutPoint::new(tx.hash(), i as u32), (o, d.len() as u64));
+        }
+        let in_cells: Vec<(CellOutput, u64)> = in_ops.iter().map(|op| self.cells.get(op).expect("malformed: input cell does not exist").clone()).collect();
+        self.short.insert(tx.proposal_short_id(), label);
+        self.txs.insert(label, TxRec { tx, in_caps: in_cells.iter().map(|(o, _)| cap_of(o)).collect(), in_cells, dao_in, sibling });
+    }
+
     fn tx_str(&self, label: u64) -> String {
         let t = &self.txs[&label];
-        let ins: Vec<String> = t.in_cells.iter().map(|(o, d)| format!("p:{}", cell_str(o, *d))).collect();
+        let ins: Vec<String> = t
+            .in_cells
+            .iter()
+            .enumerate()
+            .map(|(i, (o, d))| match t.dao_in.get(&i) {
+                Some((dl, wl)) => {
+                    let (dh, wh) = (self.blocks[dl].block.header(), self.blocks[wl].block.header());
+                    format!("w:{}:{}:{}:{}:{}", cell_str(o, *d), dh.number(), dao_tuple(&dh.dao()).0, wh.number(), dao_tuple(&wh.dao()).0)
+                }
+                None => format!("p:{}", cell_str(o, *d)),
+            })
+            .collect();
         let outs: Vec<String> = t.tx.outputs_with_data_iter().map(|(o, d)| cell_str(&o, d.len() as u64)).collect();
         format!("{}|{}", ins.join(","), outs.join(","))
     }
 
+    /// the model's abstract chain follows the branch of block `parent`; returns genesis..=parent
+    fn sync_model_chain(&mut self, ctx: &mut Ctx, parent: u64) -> Vec<u64> {
+        let path = self.path_labels(parent);
+        let mut common = 0;
+        while common < path.len() && common < self.model_chain.len() && path[common] == self.model_chain[common] {
+            common += 1;
+        }
+        if common < self.model_chain.len() {
+            self.say(ctx, &format!("trunc {}", common), Some("ok".into()));
+            self.model_chain.truncate(common);
+            ctx.out.count("model-chain-switches-branch");
+        }
+        for l in path[common..].to_vec() {
+            let line = self.blocks[&l].blk_line.clone();
+            self.say(ctx, &line, Some("ok".into()));
+            if let Some(ll) = self.blocks[&l].lock_line.clone() {
+                self.say(ctx, &ll, Some("ok".into()));
+            }
+            self.model_chain.push(l);
+        }
+        path
+    }
+
+    fn lock_id(&mut self, s: &Script) -> u64 {
+        if let Some(i) = self.lock_scripts.iter().position(|x| x == s) {
+            return i as u64;
+        }
+        self.lock_scripts.push(s.clone());
+        (self.lock_scripts.len() - 1) as u64
+    }
+
     fn exec_nb(&mut self, ts: &[&str], ctx: &mut Ctx) {
+        if self.cfg.per.is_some() {
+            return self.exec_nb_linear(ts, ctx);
+        }
         assert!(ts.len() == 7, "malformed nb line");
         let label: u64 = ts[1].parse().expect("label");
         let parent: u64 = ts[2].parse().expect("label");
@@ -485,21 +796,7 @@ impl Scn {
         let built = self.builder.build(&p_hash, &spec);
 
         // ---- the model's abstract chain follows the parent's branch
-        let path = self.path_labels(parent);
-        let mut common = 0;
-        while common < path.len() && common < self.model_chain.len() && path[common] == self.model_chain[common] {
-            common += 1;
-        }
-        if common < self.model_chain.len() {
-            self.say(ctx, &format!("trunc {}", common), Some("ok".into()));
-            self.model_chain.truncate(common);
-            ctx.out.count("model-chain-switches-branch");
-        }
-        for l in path[common..].to_vec() {
-            let line = self.blocks[&l].blk_line.clone();
-            self.say(ctx, &line, Some("ok".into()));
-            self.model_chain.push(l);
-        }
+        let path = self.sync_model_chain(ctx, parent);
 
         // ---- reward of the block to finalise: the model's answer decides the cellbase
         let ri = self.say(ctx, &format!("reward {}", p_number), Some(impl_reward));
@@ -733,7 +1030,7 @@ impl Scn {
         }
         self.blocks.insert(
             label,
-            BlkRec { label, parent, number, block: mblock.clone(), props, uprops, ids: tx_labels, blk_line: blk_line.clone(), pend_verdict: std::mem::take(&mut pend_verdict), pend_fee: fee_idx, compared: false },
+            BlkRec { label, parent, number, block: mblock.clone(), props, uprops, ids: tx_labels, blk_line: blk_line.clone(), lock_line: None, pend_verdict: std::mem::take(&mut pend_verdict), pend_fee: fee_idx, compared: false },
         );
         self.say(ctx, &blk_line, Some("ok".into()));
         self.model_chain.push(label);
@@ -762,6 +1059,423 @@ impl Scn {
         }
     }
 
+    // ---------------------------------------------------------------------------- linear scenarios
+
+    /// `dao_field` of the repo's DaoCalculator for a block with transactions `all_txs` on the node's tip
+    fn impl_dao_on_tip(&self, p_header: &HeaderView, all_txs: &[TransactionView]) -> Result<Byte32, String> {
+        let store: &ChainDB = self.node().store();
+        let txn = store.begin_transaction();
+        let tmp_block = BlockBuilder::default().transactions(all_txs.to_vec()).build();
+        let bcp = BlockCellProvider::new(&tmp_block).map_err(|e| format!("{e:?}"))?;
+        let cp = OverlayCellProvider::new(&bcp, &txn);
+        let hc = TipHeaders { db: store };
+        let mut seen = HashSet::new();
+        let rtxs: Vec<Arc<ResolvedTransaction>> = all_txs
+            .iter()
+            .map(|tx| resolve_transaction(tx.clone(), &mut seen, &cp, &hc).map(Arc::new))
+            .collect::<Result<Vec<_>, _>>()
+            .map_err(|e| format!("{e:?}"))?;
+        let loader = store.borrow_as_data_loader();
+        DaoCalculator::new(&self.consensus, &loader).dao_field(rtxs.iter().map(AsRef::as_ref), p_header).map_err(|e| format!("{e:?}"))
+    }
+
+    /// `nb <label> <parent> <salt> <txs> <props> <uncles> [<lock spec>]` of a linear scenario: the
+    /// block extends the node's tip; header fields come from the node's own store (epoch, chain
+    /// root), the cellbase (witness lock = the block's miner lock; outputs = the MODEL's `cellbase`
+    /// answer) and the dao bytes from the model.
+    fn exec_nb_linear(&mut self, ts: &[&str], ctx: &mut Ctx) {
+        assert!(ts.len() == 7 || ts.len() == 8, "malformed nb line");
+        let label: u64 = ts[1].parse().expect("label");
+        let parent: u64 = ts[2].parse().expect("label");
+        let salt: u64 = ts[3].parse().expect("salt");
+        let tx_labels = nums(ts[4]);
+        let props = nums(ts[5]);
+        let uncle_labels = nums(ts[6]);
+        let miner_lock = lock_from_spec(ts.get(7).copied().unwrap_or("a0.0"));
+        let miner_id = self.lock_id(&miner_lock);
+        assert!(!self.blocks.contains_key(&label) && label != 0, "malformed: duplicate block label");
+        let (p_hash, p_number, p_header) = {
+            let p = self.blocks.get(&parent).expect("malformed: unknown parent label");
+            (p.block.hash(), p.number, p.block.header())
+        };
+        assert!(self.node().tip_hash() == p_hash, "malformed: a linear scenario extends the tip");
+        let number = p_number + 1;
+        let delay = self.cfg.far + 1;
+        let mut uprops: Vec<u64> = vec![];
+        let mut uncle_views = vec![];
+        for ul in &uncle_labels {
+            let (u, ps) = self.uncles.get(ul).expect("malformed: unknown uncle label");
+            uprops.extend(ps.iter().copied());
+            uncle_views.push(u.as_uncle());
+        }
+        let body_txs: Vec<TransactionView> = tx_labels.iter().map(|l| self.txs.get(l).expect("malformed: unknown tx label").tx.clone()).collect();
+        let mut proposals: Vec<ProposalShortId> = vec![];
+        for l in &props {
+            let t = self.txs.get(l).expect("malformed: unknown tx label");
+            proposals.push(t.tx.proposal_short_id());
+            // the `+1 shannon` sibling of a NervosDAO withdrawal is proposed along (it is never committed)
+            if let Some(sib) = &t.sibling {
+                proposals.push(sib.proposal_short_id());
+            }
+        }
+
+        // ---- implementation side on the node's own store (tip = parent)
+        let consensus = self.consensus.clone();
+        let (epoch_ext, impl_reward, impl_pay, extension) = {
+            let store: &ChainDB = self.node.as_ref().unwrap().store();
+            let epoch_ext = consensus.next_epoch_ext(&p_header, &store.borrow_as_data_loader()).expect("epoch of the new block").epoch();
+            let r = RewardCalculator::new(&consensus, store).block_reward_to_finalize(&p_header);
+            let (s, pay) = match r {
+                Ok((lock, br)) => (
+                    format!(
+                        "ok target={} total={} primary={} secondary={} txfee={} proposal={}",
+                        number.saturating_sub(delay),
+                        br.total.as_u64(),
+                        br.primary.as_u64(),
+                        br.secondary.as_u64(),
+                        br.tx_fee.as_u64(),
+                        br.proposal_reward.as_u64()
+                    ),
+                    Some((lock, br.total)),
+                ),
+                Err(_) => ("err-overflow".to_string(), None),
+            };
+            let extension = {
+                let mmr_size = leaf_index_to_mmr_size(p_header.number());
+                let txn = store.begin_transaction();
+                let mmr = ChainRootMMR::new(mmr_size, &txn);
+                let root = mmr.get_root().expect("chain root");
+                ckb_types::bytes::Bytes::from(root.calc_mmr_hash().as_bytes().to_vec())
+            };
+            (epoch_ext, s, pay, extension)
+        };
+        let epoch = epoch_tuple(&epoch_ext);
+        // what the repo's calculator + `is_lack_of_capacity` say the cellbase has to be (the block
+        // assembler's rule)
+        let impl_cb = match impl_pay {
+            Some((lock, total)) => {
+                let lack = CellOutput::new_builder().capacity(total).lock(lock.clone()).build().is_lack_of_capacity(Capacity::zero()).expect("occupied");
+                if number <= delay || lack { "none".to_string() } else { format!("out {} {}", total.as_u64(), self.lock_id(&lock)) }
+            }
+            None => "err-overflow".to_string(),
+        };
+
+        let path = self.sync_model_chain(ctx, parent);
+
+        // ---- reward of the block to finalise and the cellbase: the model decides
+        let ri = self.say(ctx, &format!("reward {}", p_number), Some(impl_reward));
+        let ranswer = self.model_of(ri).to_string();
+        let field = |k: &str| -> Option<u64> { ranswer.split(' ').find_map(|t| t.strip_prefix(&format!("{}=", k)).and_then(|v| v.parse().ok())) };
+        let (Some(m_target), Some(m_total)) = (field("target"), field("total")) else {
+            eprintln!("C06 node: the model has no reward for parent {}: {}", p_number, ranswer);
+            self.dead = true;
+            return;
+        };
+        let ci = self.say(ctx, &format!("cellbase {}", p_number), Some(impl_cb.clone()));
+        let canswer = self.model_of(ci).to_string();
+        let exp: Option<(u64, Script)> = {
+            let parts: Vec<&str> = canswer.split(' ').collect();
+            match parts.as_slice() {
+                ["none"] => None,
+                ["out", cap, id] => {
+                    let id: usize = id.parse().expect("lock id");
+                    let Some(lock) = self.lock_scripts.get(id).cloned() else {
+                        eprintln!("C06 node: the model pays an unknown lock id: {}", canswer);
+                        self.dead = true;
+                        return;
+                    };
+                    Some((cap.parse().expect("capacity"), lock))
+                }
+                _ => {
+                    eprintln!("C06 node: the model has no cellbase for parent {}: {}", p_number, canswer);
+                    self.dead = true;
+                    return;
+                }
+            }
+        };
+        // the finalisation target's lock, independently of the model's lock table: the cellbase
+        // witness of the block with the model's target number on this chain
+        let target_lock: Script = {
+            let tl = *path.get(m_target as usize).expect("model's target is on the path");
+            let tb = &self.blocks[&tl].block;
+            packed::CellbaseWitness::from_slice(&tb.transactions()[0].witnesses().get(0).unwrap().raw_data()).expect("cellbase witness").lock()
+        };
+        let occ_of = |s: &Script| CellOutput::new_builder().lock(s.clone()).build().occupied_capacity(Capacity::zero()).expect("occupied").as_u64();
+        let oi = self.say(ctx, &format!("occupied 0:{}:n:0", target_lock.args().raw_data().len()), Some(format!("ok {}", occ_of(&target_lock))));
+        let lock_occ: u64 = self.model_of(oi).strip_prefix("ok ").and_then(|v| v.parse().ok()).expect("model occupied");
+        // RewardVerifier's three-way case on the two candidate forms (as in the other scenarios)
+        let v_none = self.say(ctx, &format!("verify {} {} {} -", p_number, m_total, lock_occ), None);
+        let v_exact = self.say(ctx, &format!("verify {} {} {} {}:1", p_number, m_total, lock_occ, m_total), None);
+        let with_output = match (self.model_of(v_none), self.model_of(v_exact)) {
+            ("ok", _) => false,
+            (_, "ok") => true,
+            (a, b) => panic!("the model accepts no cellbase form: {a} / {b}"),
+        };
+        match &exp {
+            None => assert!(!with_output, "model inconsistent: `cellbase` = none but `verify` wants an output"),
+            Some((cap, lock)) => assert!(with_output && *cap == m_total && *lock == target_lock, "model inconsistent: `cellbase` = {canswer}, `verify`/target lock disagree"),
+        }
+        let witness = packed::CellbaseWitness::new_builder().lock(miner_lock.clone()).message(ckb_types::bytes::Bytes::from(salt.to_le_bytes().to_vec()).pack()).build();
+        let mk_cellbase = |outs: &[(u64, Script)]| -> TransactionView {
+            let mut b = TransactionBuilder::default().input(CellInput::new_cellbase_input(number)).witness(witness.as_bytes().pack());
+            for (cap, lock) in outs {
+                b = b.output(CellOutput::new_builder().capacity(Capacity::shannons(*cap)).lock(lock.clone()).build()).output_data(ckb_types::bytes::Bytes::new());
+            }
+            b.build()
+        };
+        let exp_outs: Vec<(u64, Script)> = exp.iter().cloned().collect();
+        let cellbase = mk_cellbase(&exp_outs);
+
+        // ---- per-transaction fees and the dao field: the model's answers
+        let mut fee_idx = vec![];
+        let mut m_fees = vec![];
+        for l in &tx_labels {
+            let i = self.say(ctx, &format!("fee {}", self.tx_str(*l)), None);
+            let f: u64 = self.model_of(i).strip_prefix("ok ").and_then(|v| v.parse().ok()).unwrap_or_else(|| panic!("malformed scenario: the model has no fee for tx {}: {}", l, self.model_of(i)));
+            fee_idx.push(i);
+            m_fees.push(f);
+        }
+        let pd = dao_tuple(&p_header.dao());
+        let cb_str = {
+            let outs: Vec<String> = cellbase.outputs_with_data_iter().map(|(o, d)| cell_str(&o, d.len() as u64)).collect();
+            format!("-|{}", if outs.is_empty() { "-".to_string() } else { outs.join(",") })
+        };
+        let mut txs_str = vec![cb_str];
+        txs_str.extend(tx_labels.iter().map(|l| self.tx_str(*l)));
+        let mut all_txs = vec![cellbase.clone()];
+        all_txs.extend(body_txs.iter().cloned());
+        let impl_dao = match self.impl_dao_on_tip(&p_header, &all_txs) {
+            Ok(d) => {
+                let t = dao_tuple(&d);
+                format!("ok {} {} {} {} {}", hex(d.as_slice()), t.0, t.1, t.2, t.3)
+            }
+            Err(e) => panic!("malformed scenario: the repo's DaoCalculator has no dao field for block {}: {}", number, e),
+        };
+        let di = self.say(
+            ctx,
+            &format!("dao {} {} {} {} {} {} {} {} {} {} {}", self.cfg.ser, epoch.0, epoch.1, epoch.2, epoch.3, p_number, pd.0, pd.1, pd.2, pd.3, txs_str.join(";")),
+            Some(impl_dao.clone()),
+        );
+        let danswer = self.model_of(di).to_string();
+        let dparts: Vec<&str> = danswer.split(' ').collect();
+        if dparts.len() != 6 || dparts[0] != "ok" {
+            eprintln!("C06 node: the model has no dao field: {}", danswer);
+            self.dead = true;
+            return;
+        }
+        let m_dao_hex = dparts[1].to_string();
+        let m_dao_bytes: Vec<u8> = (0..32).map(|i| u8::from_str_radix(&m_dao_hex[2 * i..2 * i + 2], 16).expect("hex")).collect();
+        let m_dao = Byte32::from_slice(&m_dao_bytes).unwrap();
+        let m_dao_t: (u64, u64, u64, u64) = (dparts[2].parse().unwrap(), dparts[3].parse().unwrap(), dparts[4].parse().unwrap(), dparts[5].parse().unwrap());
+        let same = danswer == impl_dao && canswer == impl_cb;
+        ctx.out.count(if same { "model-valued-block-equals-calculators-block" } else { "model-valued-block-differs-from-calculators-block" });
+
+        // ---- the model-valued block
+        let timestamp = p_header.timestamp() + 1 + salt % 3;
+        let mk_block = |cb: &TransactionView, dao: &Byte32, body: &[TransactionView]| -> BlockView {
+            let mut txs = vec![cb.clone()];
+            txs.extend(body.iter().cloned());
+            BlockBuilder::default()
+                .parent_hash(p_hash.clone())
+                .number(number)
+                .timestamp(timestamp)
+                .compact_target(epoch_ext.compact_target())
+                .epoch(epoch_ext.number_with_fraction(number))
+                .dao(dao.clone())
+                .transactions(txs)
+                .proposals(proposals.clone())
+                .uncles(uncle_views.clone())
+                .extension(Some(extension.pack()))
+                .build()
+        };
+        let mblock = mk_block(&cellbase, &m_dao, &body_txs);
+        let mdv = self.say(ctx, &format!("daoverify {}", m_dao_hex), None);
+        let pend_verdict = vec![if with_output { v_exact } else { v_none }, mdv];
+        let other_idx = if with_output { v_none } else { v_exact };
+
+        // ---- variants first: every other cellbase is rejected. The dao of a variant carries the U
+        //      that goes with ITS outputs, so that DaoHeaderVerifier (which runs first) passes and the
+        //      verdict is RewardVerifier's (CellbaseVerifier's for two outputs)
+        let exp_occ: u64 = exp_outs.iter().map(|(_, l)| occ_of(l)).sum();
+        let mut variants: Vec<(Vec<(u64, Script)>, String, Option<usize>)> = vec![];
+        let heavy = !self.cfg.dao || ctx.rng.chance(1, 12);
+        match &exp {
+            None => {
+                let why = if number <= delay { "no-target" } else { "insufficient" };
+                variants.push((vec![(m_total.max(1), target_lock.clone())], format!("minting:{why}:the-reward"), Some(other_idx)));
+                if heavy {
+                    variants.push((vec![(1, target_lock.clone())], format!("minting:{why}:1-shannon"), None));
+                    variants.push((vec![(lock_occ, target_lock.clone())], format!("minting:{why}:exactly-the-occupied-capacity"), None));
+                    variants.push((vec![(100_000_000_000_000, target_lock.clone())], format!("minting:{why}:1e14-shannons"), None));
+                    if miner_lock != target_lock {
+                        variants.push((vec![(occ_of(&miner_lock) + ctx.rng.below(1000), miner_lock.clone())], format!("minting:{why}:to-the-current-miner"), None));
+                    }
+                }
+            }
+            Some((total, tl)) => {
+                variants.push((vec![], "cellbase-output-missing".into(), Some(other_idx)));
+                variants.push((vec![(total + 1, tl.clone())], "cellbase-capacity-above".into(), None));
+                variants.push((vec![(total - 1, tl.clone())], "cellbase-capacity-below".into(), None));
+                if heavy {
+                    let mut ch = tl.code_hash().raw_data().to_vec();
+                    ch[ctx.rng.below(32) as usize] ^= 1 << ctx.rng.below(8);
+                    variants.push((vec![(*total, tl.clone().as_builder().code_hash(Byte32::from_slice(&ch).unwrap()).build())], "cellbase-wrong-lock".into(), None));
+                    if miner_lock != *tl {
+                        variants.push((vec![(*total, miner_lock.clone())], "cellbase-pays-the-current-miner".into(), None));
+                    }
+                    for (d, name) in [(1i64, "cellbase-pays-the-block-after-the-target"), (-1, "cellbase-pays-the-block-before-the-target")] {
+                        let n = m_target as i64 + d;
+                        if n >= 1 && (n as usize) < path.len() {
+                            let nb = &self.blocks[&path[n as usize]].block;
+                            let l = packed::CellbaseWitness::from_slice(&nb.transactions()[0].witnesses().get(0).unwrap().raw_data()).expect("cellbase witness").lock();
+                            if l != *tl {
+                                variants.push((vec![(*total, l)], name.into(), None));
+                            }
+                        }
+                    }
+                    let part = if *total >= 2 * lock_occ { lock_occ } else { *total / 2 };
+                    variants.push((vec![(total - part, tl.clone()), (part, tl.clone())], "cellbase-two-outputs-summing-to-the-reward".into(), None));
+                }
+            }
+        }
+        for (outs, kind, idx) in variants {
+            if self.dead {
+                break;
+            }
+            let v_occ: u64 = outs.iter().map(|(_, l)| occ_of(l)).sum();
+            let dao = pack_dao_data(m_dao_t.0, Capacity::shannons(m_dao_t.1), Capacity::shannons(m_dao_t.2), Capacity::shannons(m_dao_t.3 - exp_occ + v_occ));
+            let outs_str = if outs.is_empty() { "-".to_string() } else { outs.iter().map(|(c, l)| format!("{}:{}", c, if *l == target_lock { 1 } else { 0 })).collect::<Vec<_>>().join(",") };
+            let i = self.say(ctx, &format!("cbverify {} {} {} {}", p_number, m_total, lock_occ, outs_str), None);
+            let r = self.node().process(&mk_block(&mk_cellbase(&outs), &dao, &body_txs));
+            self.variant_result(ctx, i, &r, &kind, number);
+            if let Some(j) = idx {
+                // the legacy `verify` line of the other form gets the same verdict
+                self.lines[j].imp = self.lines[i].imp.clone();
+            }
+        }
+        // dao bit flips (two random bits; the other scenarios flip one bit per field in every block)
+        for _ in 0..2 {
+            if self.dead {
+                break;
+            }
+            let bit = ctx.rng.below(256) as usize;
+            let mut raw = m_dao_bytes.clone();
+            raw[bit / 8] ^= 1 << (bit % 8);
+            let i = self.say(ctx, &format!("daoverify {}", hex(&raw)), None);
+            let r = self.node().process(&mk_block(&cellbase, &Byte32::from_slice(&raw).unwrap(), &body_txs));
+            self.variant_result(ctx, i, &r, ["dao-bitflip-C", "dao-bitflip-AR", "dao-bitflip-S", "dao-bitflip-U"][bit / 64], number);
+            self.flips += 1;
+        }
+        // NervosDAO: the same block with a withdrawal replaced by its `+1 shannon` sibling
+        for (k, l) in tx_labels.iter().enumerate() {
+            if self.dead {
+                break;
+            }
+            let Some(sib) = self.txs[l].sibling.clone() else { continue };
+            let mut body = body_txs.clone();
+            body[k] = sib;
+            let r = self.node().process(&mk_block(&cellbase, &m_dao, &body));
+            match &r {
+                Ok(_) => {
+                    ctx.out.oracle_fail("variant-accepted:dao-withdraw-one-shannon-above-maximum", &format!("block {}: the node accepted a NervosDAO withdrawal (tx {}) paying 1 shannon more than counted*AR_w/AR_d + occupied", number, l));
+                    self.dead = true;
+                }
+                Err(e) => ctx.out.count(&format!("variant-rejected:dao-withdraw-one-shannon-above-maximum:{}", if e.contains("Script") || e.contains("script") { "script" } else { "other" })),
+            }
+        }
+        if self.dead {
+            return;
+        }
+
+        // ---- the model-valued block itself
+        let r = self.node().process(&mblock);
+        let v = verdict(&r);
+        let blk_line = format!(
+            "blk {} {} {} {} {} {} {} {} {} {} {} {} {}",
+            number,
+            fmt_nums(&props),
+            fmt_nums(&uprops),
+            fmt_nums(&tx_labels),
+            fmt_nums(&m_fees),
+            epoch.0,
+            epoch.1,
+            epoch.2,
+            epoch.3,
+            m_dao_t.0,
+            m_dao_t.1,
+            m_dao_t.2,
+            m_dao_t.3
+        );
+        if v != "ok" {
+            for i in &pend_verdict {
+                self.lines[*i].imp = Some(v.clone());
+            }
+            for i in fee_idx {
+                self.lines[i].imp = Some("rejected".into());
+            }
+            match v.as_str() {
+                "err-amount" | "err-target" | "err-dao" | "err-quantity" => {
+                    ctx.out.oracle_fail(
+                        "model-valued-block-rejected",
+                        &format!("block {} (label {}) carrying the model's cellbase ({}) / dao was rejected by the node: {:?}; the repo's calculators agree with the model: {}", number, label, canswer, r, same),
+                    );
+                    self.dead = true;
+                    return;
+                }
+                _ => {
+                    eprintln!("C06 node: malformed scenario: block {} (label {}) rejected for another rule: {:?}", number, label, r);
+                    self.cleanup();
+                    std::process::exit(3);
+                }
+            }
+        }
+        if !same {
+            ctx.out.oracle_fail("calculators-disagree-with-verifiers", &format!("block {} (label {}): the node accepted the model-valued block ({} / {}), the repo's calculators say {} / {}", number, label, canswer, danswer, impl_cb, impl_dao));
+            for i in &pend_verdict {
+                self.lines[*i].imp = Some("ok".into());
+            }
+            self.dead = true;
+            return;
+        }
+        ctx.out.count("model-valued-block-accepted");
+        ctx.out.count(match (&exp, number <= delay) {
+            (Some(_), _) => "model-valued-block-accepted:with-reward-output",
+            (None, true) => "model-valued-block-accepted:no-output:no-target",
+            (None, false) => "model-valued-block-accepted:no-output:insufficient-reward",
+        });
+        if exp.is_some() && miner_lock != target_lock {
+            ctx.out.count("model-valued-block-accepted:reward-to-another-lock-than-the-miners");
+        }
+        *ctx.out.hist.entry(format!("miner-lock-args-{}", miner_lock.args().raw_data().len())).or_insert(0) += 1;
+        for (i, (o, d)) in cellbase.outputs_with_data_iter().enumerate() {
+            self.cells.insert(OutPoint::new(cellbase.hash(), i as u32), (o, d.len() as u64));
+        }
+        for l in &tx_labels {
+            self.committed_in.insert(*l, label);
+        }
+        let lock_line = format!("lock {} {} {}", number, miner_id, miner_lock.args().raw_data().len());
+        self.blocks.insert(
+            label,
+            BlkRec { label, parent, number, block: mblock.clone(), props, uprops, ids: tx_labels, blk_line: blk_line.clone(), lock_line: Some(lock_line.clone()), pend_verdict, pend_fee: fee_idx, compared: false },
+        );
+        self.say(ctx, &blk_line, Some("ok".into()));
+        self.say(ctx, &lock_line, Some("ok".into()));
+        self.model_chain.push(label);
+
+        if self.node().tip_hash() == mblock.hash() {
+            let path = self.path_labels(label);
+            self.compare_attached(ctx, label, &path);
+            let u = dao_tuple(&self.node().tip().dao()).3;
+            let live = self.live_occupied();
+            ctx.out.count("live-set-scans");
+            if live != u as u128 {
+                ctx.out.oracle_fail("u-not-occupied-capacity-of-live-set", &format!("tip {} U={} live-set={}", number, u, live));
+            }
+        } else {
+            ctx.out.oracle_fail("accepted-block-not-tip", &format!("block {} (label {})", number, label));
+        }
+    }
+
     fn variant_result(&mut self, ctx: &mut Ctx, idx: usize, r: &Result<bool, String>, kind: &str, number: u64) {
         let v = verdict(r);
         self.lines[idx].imp = Some(v.clone());
@@ -771,6 +1485,21 @@ impl Scn {
         } else {
             ctx.out.count(&format!("variant-rejected:{}:{}", kind, v));
         }
+    }
+
+    /// NervosDAO interest a transaction withdraws, in u128, independent of model and calculators:
+    /// Σ over withdrawing inputs of floor(counted * AR_withdraw / AR_deposit) − counted
+    fn tx_interest(&self, label: u64) -> u128 {
+        let t = &self.txs[&label];
+        let mut sum = 0u128;
+        for (i, (dl, wl)) in t.dao_in.iter() {
+            let (o, d) = &t.in_cells[*i];
+            let counted = cap_of(o) as u128 - occ128(o, *d);
+            let da = dao_tuple(&self.blocks[dl].block.header().dao()).0 as u128;
+            let wa = dao_tuple(&self.blocks[wl].block.header().dao()).0 as u128;
+            sum += counted * wa / da - counted;
+        }
+        sum
     }
 
     /// block `label` is on the node's main chain: fill the node's answers and evaluate the property
@@ -799,14 +1528,20 @@ impl Scn {
         for (k, i) in fee_idx.iter().enumerate() {
             self.lines[*i].imp = Some(ext.txs_fees.get(k).map(|f| format!("ok {}", f.as_u64())).unwrap_or_else(|| "missing".into()));
         }
-        // oracle: txs_fees[i] = Σ inputs − Σ outputs
+        // oracle: txs_fees[i] = Σ inputs (+ NervosDAO interest of withdrawing inputs) − Σ outputs
+        let mut interests: u128 = 0;
         for (k, l) in ids.iter().enumerate() {
             let t = &self.txs[l];
             let ins: u128 = t.in_caps.iter().map(|c| *c as u128).sum();
             let outs: u128 = t.tx.outputs().into_iter().map(|o| cap_of(&o) as u128).sum();
             let got = ext.txs_fees.get(k).map(|f| f.as_u64() as u128);
-            if ins < outs || got != Some(ins - outs) {
-                ctx.out.oracle_fail("txs-fees-not-inputs-minus-outputs", &format!("block {} tx {} fee={:?} inputs={} outputs={}", number, l, got, ins, outs));
+            let interest = self.tx_interest(*l);
+            interests += interest;
+            if ins + interest < outs || got != Some(ins + interest - outs) {
+                ctx.out.oracle_fail("txs-fees-not-inputs-minus-outputs", &format!("block {} tx {} fee={:?} inputs={} dao-interest={} outputs={}", number, l, got, ins, interest, outs));
+            }
+            if interest > 0 {
+                ctx.out.count("attached-tx-withdraws-dao-interest");
             }
         }
         // oracle: the dao rule against the parent's header as the node stores it
@@ -839,7 +1574,7 @@ impl Scn {
         if u as u128 + freed != pu as u128 + added {
             bad.push("U");
         }
-        if s as u128 != ps as u128 + (g2 - miner) {
+        if s as u128 + interests != ps as u128 + (g2 - miner) {
             bad.push("S");
         }
         if ar as u128 != par as u128 + par as u128 * g2 / pc as u128 {
@@ -911,17 +1646,37 @@ impl Scn {
             }
             let spec_total = primary + secondary + committer + proposer;
             let got: u128 = outputs.iter().map(|o| cap_of(o) as u128).sum();
-            if outputs.len() != 1 {
-                ctx.out.oracle_fail("cellbase-output-count", &format!("block {} outputs={}", number, outputs.len()));
-            } else {
-                let want_lock = packed::CellbaseWitness::from_slice(&tb.block.transactions()[0].witnesses().get(0).unwrap().raw_data()).expect("witness").lock();
-                if outputs[0].lock() != want_lock {
-                    ctx.out.oracle_fail("cellbase-lock-not-targets", &format!("block {} target {}", number, t));
+            // the lock to pay: the one in the cellbase WITNESS of the target block
+            let want_lock = packed::CellbaseWitness::from_slice(&tb.block.transactions()[0].witnesses().get(0).unwrap().raw_data()).expect("witness").lock();
+            let want_occ = occ128(&CellOutput::new_builder().lock(want_lock.clone()).build(), 0);
+            // a reward that cannot fill a cell locked with the target's lock is not paid out
+            // (the known block-1 exception lowers the code's total: judged on what is left)
+            let code_total = if t == 1 && got < spec_total { spec_total - proposer } else { spec_total };
+            let due = code_total >= want_occ;
+            let tb_lock_differs = want_lock != packed::CellbaseWitness::from_slice(&stored.transactions()[0].witnesses().get(0).unwrap().raw_data()).expect("witness").lock();
+            if !due {
+                ctx.out.count("attached-block-with-insufficient-reward");
+                if spec_total + 1 == want_occ {
+                    ctx.out.count("attached-block-with-insufficient-reward:one-shannon-short");
                 }
-            }
-            if got != spec_total {
-                let class = if t == 1 && got < spec_total && got + proposer >= spec_total { "block1-proposer-share-unpaid" } else { "cellbase-capacity-not-reward" };
-                ctx.out.oracle_fail(class, &format!("block {} target {} cellbase={} spec={} (primary={} secondary={} committer={} proposer={})", number, t, got, spec_total, primary, secondary, committer, proposer));
+                if !outputs.is_empty() {
+                    ctx.out.oracle_fail("cellbase-mints-with-insufficient-reward", &format!("block {} target {} cellbase={} reward={} occupied={}", number, t, got, spec_total, want_occ));
+                }
+            } else {
+                if spec_total == want_occ {
+                    ctx.out.count("attached-block-reward-exactly-fills-the-cell");
+                }
+                if outputs.len() != 1 {
+                    ctx.out.oracle_fail("cellbase-output-count", &format!("block {} outputs={}", number, outputs.len()));
+                } else if outputs[0].lock() != want_lock {
+                    ctx.out.oracle_fail("cellbase-lock-not-targets", &format!("block {} target {}", number, t));
+                } else if tb_lock_differs {
+                    ctx.out.count("attached-block-pays-a-lock-other-than-its-own-miners");
+                }
+                if got != spec_total {
+                    let class = if t == 1 && got < spec_total && got + proposer >= spec_total { "block1-proposer-share-unpaid" } else { "cellbase-capacity-not-reward" };
+                    ctx.out.oracle_fail(class, &format!("block {} target {} cellbase={} spec={} (primary={} secondary={} committer={} proposer={})", number, t, got, spec_total, primary, secondary, committer, proposer));
+                }
             }
             ctx.out.count("attached-block-with-finalisation-target");
             if proposer > 0 {
@@ -1192,6 +1947,272 @@ fn gen_scenario(rng: &mut Rng, thorough: bool) -> Vec<String> {
     lines
 }
 
+/// smallest fee whose committer share (`fee − floor(fee·numer/denom)`) is `x` (None when the ratio is 1)
+fn fee_with_committer_share(x: u64, numer: u64, denom: u64) -> Option<u64> {
+    (x..=x.saturating_mul(denom) + denom).find(|f| f - f * numer / denom == x)
+}
+
+/// A LINEAR scenario around RewardVerifier's "insufficient reward to create a cell" boundary: a
+/// tiny primary epoch reward (the per-block reward sits at / just below the occupied capacity of a
+/// cell locked with a `focus`-byte-args lock), a distinct miner lock per block (args of 0 / 20 /
+/// 200 bytes, so the threshold moves), small fees that lift single rewards over the threshold.
+fn gen_scenario_linear(rng: &mut Rng, _thorough: bool) -> Vec<String> {
+    let close = rng.range(1, 2);
+    let far = close + rng.range(0, 3);
+    let (numer, denom) = match rng.below(6) {
+        0 => (1, 3),
+        1 => (0, 5),
+        2 => (3, 7),
+        _ => (4, 10),
+    };
+    let epoch_len = *rng.pick(&[3u64, 4, 5, 7]);
+    let focus = *rng.pick(&[0u64, 20, 20, 200]);
+    let occ = (41 + focus) * 100_000_000;
+    // per-block primary reward: base = per / len, the first per % len blocks of an epoch get +1
+    let mode = rng.below(8);
+    let (per, gap) = match mode {
+        // base = occ − 1, a few blocks per epoch reach occ exactly
+        0 | 1 => (epoch_len * occ - rng.range(1, epoch_len - 1), 1),
+        // base = occ − d: only fees can lift a reward to the threshold
+        2 | 3 | 4 => {
+            let d = rng.range(1, 8);
+            (epoch_len * (occ - d) + rng.below(2), d)
+        }
+        // nothing ever fills a cell (the 1000-shannon chain)
+        5 => (epoch_len * rng.range(1, 2000), occ),
+        // base = occ: everything with the focus lock is paid, longer locks are not
+        6 => (epoch_len * occ + rng.below(epoch_len), 0),
+        // comfortably above the longest lock: every block is paid, to distinct locks
+        _ => (epoch_len * (241 * 100_000_000 + rng.below(1_000_000)), 0),
+    };
+    let ser = match rng.below(10) {
+        0 | 1 | 2 | 3 => 0,
+        4 => 1,
+        5 => epoch_len + 1,
+        // miner share floor(g2·U/C) of a few shannons (U/C is about 1/800 on this genesis)
+        6 | 7 => epoch_len * rng.range(500, 8000),
+        8 => rng.below(100_000_000_000),
+        _ => 61_369_863_013_698,
+    };
+    let genesis_cells = 10 + rng.below(6);
+    let mut lines = vec![format!("node {} {} {} {} {} {} {} {}", close, far, numer, denom, ser, epoch_len, genesis_cells, per)];
+    let delay = far + 1;
+    let len = delay + far + 3 + rng.below(2 * far + 7);
+    let mut avail: Vec<GCell> = (0..genesis_cells as usize).map(|i| GCell { r: CellRef::G(i), lb: 5_000_000_000_000, parent_tx: None }).collect();
+    let mut pending: Vec<GTx> = vec![];
+    let mut committed: HashSet<u64> = HashSet::new();
+    let mut used_uncle_slots: HashSet<(u64, u64)> = HashSet::new();
+    let mut path: Vec<u64> = vec![0];
+    let mut next_tx = 1u64;
+    let mut next_blk = 1u64;
+    let mut tip = 0u64;
+    for n in 1..=len {
+        // new transactions with fees whose shares sit around the gap
+        for _ in 0..rng.below(3) {
+            if avail.is_empty() {
+                break;
+            }
+            let i = rng.below(avail.len() as u64) as usize;
+            let cell = avail.swap_remove(i);
+            let max_out = (cell.lb / 4_900_000_000).min(2);
+            if max_out == 0 {
+                continue;
+            }
+            let n_out = rng.range(1, max_out);
+            let want = match rng.below(6) {
+                0 => gap.saturating_sub(1),
+                1 | 2 => gap,
+                3 => gap + 1,
+                4 => rng.below(2 * gap.min(1000) + 3),
+                _ => 0,
+            };
+            // aimed at the committer share, or at the proposer share, or the fee itself
+            let fee = match rng.below(3) {
+                0 => fee_with_committer_share(want, numer, denom).unwrap_or(want),
+                1 if numer > 0 => (want * denom).div_ceil(numer),
+                _ => want,
+            }
+            .min(1_000_000_000);
+            let label = next_tx;
+            next_tx += 1;
+            lines.push(format!("tx {} {} {} {}", label, fmt_cellref(&cell.r), n_out, fee));
+            let each = (cell.lb - fee) / n_out;
+            for k in 0..n_out {
+                avail.push(GCell { r: CellRef::T(label, k as u32), lb: each, parent_tx: Some(label) });
+            }
+            pending.push(GTx { label, parents: cell.parent_tx.into_iter().collect(), proposed_at: vec![], committed: false });
+        }
+        let mut props = vec![];
+        let mut uprops: Vec<u64> = vec![];
+        let epoch_start = (n / epoch_len) * epoch_len;
+        let lo = epoch_start.max(1);
+        let can_uncle = n >= 2 && lo < n;
+        // block 1 proposes nothing (its proposer share is the recorded block-1 exception)
+        if n >= 2 {
+            for t in pending.iter_mut() {
+                if t.committed {
+                    continue;
+                }
+                let go = if t.proposed_at.is_empty() { rng.chance(3, 4) } else { rng.chance(1, 5) };
+                if !go {
+                    continue;
+                }
+                if can_uncle && rng.chance(1, 4) {
+                    uprops.push(t.label);
+                } else {
+                    props.push(t.label);
+                }
+                t.proposed_at.push(n);
+            }
+        }
+        let mut uncle_labels = vec![];
+        if !uprops.is_empty() {
+            let m = rng.range(lo, n - 1);
+            let mut dt = 1 + rng.below(5);
+            while used_uncle_slots.contains(&(path[m as usize], dt)) {
+                dt += 1;
+            }
+            used_uncle_slots.insert((path[m as usize], dt));
+            let ul = next_blk;
+            next_blk += 1;
+            lines.push(format!("ub {} {} {} {}", ul, path[m as usize], dt, fmt_nums(&uprops)));
+            uncle_labels.push(ul);
+        }
+        let mut commits = vec![];
+        let mut now: HashSet<u64> = HashSet::new();
+        for t in pending.iter_mut() {
+            if t.committed {
+                continue;
+            }
+            let in_window = t.proposed_at.iter().any(|p| *p + close <= n && n <= *p + far);
+            if !in_window || !t.parents.iter().all(|p| committed.contains(p) || now.contains(p)) {
+                continue;
+            }
+            if rng.chance(3, 4) {
+                commits.push(t.label);
+                now.insert(t.label);
+                t.committed = true;
+            }
+        }
+        committed.extend(now.iter().copied());
+        pending.retain(|t| !t.committed);
+        // the miner's lock: args of the focus length most of the time, a small pool of ids so that
+        // some locks repeat, `x` kinds with a code hash of their own
+        let l = if rng.chance(3, 5) { focus } else { *rng.pick(&[0u64, 20, 200]) };
+        let kind = if rng.chance(1, 3) { "x" } else { "a" };
+        let id = if rng.chance(1, 4) { rng.below(3) } else { 10 + n };
+        let label = next_blk;
+        next_blk += 1;
+        lines.push(format!("nb {} {} {} {} {} {} {}{}.{}", label, tip, label, fmt_nums(&commits), fmt_nums(&props), fmt_nums(&uncle_labels), kind, l, id));
+        tip = label;
+        path.push(label);
+        if rng.chance(1, 50) {
+            lines.push("restart".to_string());
+        }
+    }
+    lines
+}
+
+/// A NervosDAO scenario: 2-block epochs (the script's lock period is 180 epochs), deposits in the
+/// first blocks, phase-1 transactions later, phase-2 withdrawals once `deposit epoch + 180` is
+/// reached; the real DAO script and DaoCalculator verify them inside the node.
+fn gen_scenario_dao(rng: &mut Rng, thorough: bool) -> Vec<String> {
+    let close = rng.range(1, 2);
+    let far = close + rng.range(0, 2);
+    let epoch_len = 2u64;
+    let (r1, r2) = (1 + rng.below(1_000_000_000_000_000), 100_000_000_000 + rng.below(1_000_000_000_000));
+    let ser = *rng.pick(&[61_369_863_013_698u64, 61_369_863_013_698, 1_000_000_000_000, 10_000_000_000, r1]);
+    let per = *rng.pick(&[191_780_800_000_000u64, 19_178_080_000_000, r2]);
+    let genesis_cells = 8;
+    let mut lines = vec![format!("node {} {} 4 10 {} {} {} {} dao", close, far, ser, epoch_len, genesis_cells, per)];
+    let n_dep = if thorough { rng.range(1, 3) } else { rng.range(1, 2) };
+    // plan: deposit k proposed at block pd, committed at pd + close; prepare proposed at pp ...
+    struct D {
+        dep: u64,
+        prep: u64,
+        wd: u64,
+        dep_prop: u64,
+        prep_prop: u64,
+        wd_commit: u64,
+    }
+    let mut next_tx = 1u64;
+    let mut ds: Vec<D> = vec![];
+    for k in 0..n_dep {
+        let dep_prop = 2 + rng.below(4);
+        let dep_commit = dep_prop + close;
+        let prep_prop = dep_commit + 1 + *rng.pick(&[0u64, 1, 2, 5, 40, 300]).min(&(340 - dep_commit));
+        let prep_commit = prep_prop + close;
+        // deposit block d (epoch d/2, index d%2): the since epoch is reached at block d + 360
+        let wd_commit = (dep_commit + 360).max(prep_commit + close + 1) + rng.below(3);
+        let _ = k;
+        ds.push(D { dep: next_tx, prep: next_tx + 1, wd: next_tx + 2, dep_prop, prep_prop, wd_commit });
+        next_tx += 3;
+    }
+    let len = ds.iter().map(|d| d.wd_commit).max().unwrap() + far + 2;
+    let mut tip = 0u64;
+    let mut next_blk = 1u64;
+    let mut gcell = 0usize;
+    let mut plain_pending: Vec<(u64, u64)> = vec![]; // (label, proposed at)
+    for n in 1..=len {
+        let mut props = vec![];
+        let mut commits = vec![];
+        for (k, d) in ds.iter().enumerate() {
+            if n == d.dep_prop {
+                let cap = match rng.below(5) {
+                    0 => 10_200_000_000 + rng.below(3),
+                    1 => 100_000_000_000,
+                    2 => 4_000_000_000_000,
+                    _ => 10_200_000_000 + rng.below(4_000_000_000_000),
+                };
+                lines.push(format!("dtx {} dep g{} {} {}", d.dep, k, cap, rng.below(1000)));
+                props.push(d.dep);
+            }
+            if n == d.dep_prop + close {
+                commits.push(d.dep);
+            }
+            if n == d.prep_prop {
+                lines.push(format!("dtx {} prep {} t{}.1 {}", d.prep, d.dep, d.dep, rng.below(1000)));
+                props.push(d.prep);
+            }
+            if n == d.prep_prop + close {
+                commits.push(d.prep);
+            }
+            if n + close == d.wd_commit {
+                lines.push(format!("dtx {} wd {} {}", d.wd, d.prep, *rng.pick(&[0u64, 0, 1, 1000, 100_000_000])));
+                props.push(d.wd);
+            }
+            if n == d.wd_commit {
+                commits.push(d.wd);
+            }
+        }
+        // a plain transaction now and then keeps U and the fees moving
+        if n >= 2 && rng.chance(1, 40) && n_dep as usize + gcell < genesis_cells as usize {
+            let label = next_tx;
+            next_tx += 1;
+            lines.push(format!("tx {} g{} 1 {}", label, n_dep as usize + gcell, rng.below(100_000)));
+            gcell += 1;
+            props.push(label);
+            plain_pending.push((label, n));
+        }
+        plain_pending.retain(|(l, p)| {
+            if n == *p + close {
+                commits.push(*l);
+                false
+            } else {
+                true
+            }
+        });
+        let label = next_blk;
+        next_blk += 1;
+        lines.push(format!("nb {} {} {} {} {} - a{}.{}", label, tip, label, fmt_nums(&commits), fmt_nums(&props), *rng.pick(&[0u64, 20]), n % 5));
+        tip = label;
+        if rng.chance(1, 400) {
+            lines.push("restart".to_string());
+        }
+    }
+    lines
+}
+
 // ---------------------------------------------------------------------------------------------- run
 
 fn run_scenario(lines: &[String], label: &str, opts: &Opts, ctx: &mut Ctx) {
@@ -1204,7 +2225,7 @@ fn run_scenario(lines: &[String], label: &str, opts: &Opts, ctx: &mut Ctx) {
     // so a recorded case replays to the same blocks and answers
     let mut h: u64 = 0xcbf29ce484222325;
     for l in lines {
-        if matches!(l.split(' ').next(), Some("node" | "tx" | "ub" | "nb" | "restart")) {
+        if matches!(l.split(' ').next(), Some("node" | "tx" | "ub" | "nb" | "restart" | "dtx")) {
             for b in l.bytes() {
                 h = (h ^ b as u64).wrapping_mul(0x100000001b3);
             }
@@ -1216,13 +2237,14 @@ fn run_scenario(lines: &[String], label: &str, opts: &Opts, ctx: &mut Ctx) {
         match ts[0] {
             "node" => {
                 assert!(scn.is_none(), "malformed: one `node` line per case");
-                assert!(ts.len() == 8, "malformed node line");
-                let v: Vec<u64> = ts[1..].iter().map(|x| x.parse().expect("number")).collect();
+                assert!(ts.len() == 8 || ts.len() == 9 || (ts.len() == 10 && ts[9] == "dao"), "malformed node line");
+                let v: Vec<u64> = ts[1..ts.len().min(9)].iter().map(|x| x.parse().expect("number")).collect();
                 assert!(v[0] >= 1 && v[0] <= v[1] && v[3] > 0 && v[2] <= v[3] && v[5] >= 2 && v[6] >= 1, "malformed node parameters");
-                let cfg = ScnCfg { close: v[0], far: v[1], numer: v[2], denom: v[3], ser: v[4], epoch_len: v[5], genesis_cells: v[6] };
+                let cfg = ScnCfg { close: v[0], far: v[1], numer: v[2], denom: v[3], ser: v[4], epoch_len: v[5], genesis_cells: v[6], per: v.get(7).copied(), dao: ts.len() == 10 };
+                assert!(cfg.per != Some(0), "malformed node parameters: primary epoch reward 0");
                 scn = Some(Scn::start(cfg, &opts.out, ctx, l));
             }
-            "tx" | "ub" | "nb" | "restart" => {
+            "tx" | "ub" | "nb" | "restart" | "dtx" => {
                 let s = scn.as_mut().expect("malformed: `node` line first");
                 if s.dead {
                     continue;
@@ -1230,6 +2252,7 @@ fn run_scenario(lines: &[String], label: &str, opts: &Opts, ctx: &mut Ctx) {
                 s.say(ctx, l, Some("ok".into()));
                 let r = std::panic::catch_unwind(std::panic::AssertUnwindSafe(|| match ts[0] {
                     "tx" => s.exec_tx(&ts),
+                    "dtx" => s.exec_dtx(&ts, ctx),
                     "ub" => s.exec_ub(&ts),
                     "restart" => s.exec_restart(ctx),
                     _ => s.exec_nb(&ts, ctx),
@@ -1242,7 +2265,7 @@ fn run_scenario(lines: &[String], label: &str, opts: &Opts, ctx: &mut Ctx) {
                 }
             }
             // model lines of a recorded case are regenerated, not replayed
-            "trunc" | "blk" | "reward" | "occupied" | "verify" | "fee" | "dao" | "daoverify" => {}
+            "trunc" | "blk" | "reward" | "occupied" | "verify" | "fee" | "dao" | "daoverify" | "lock" | "cellbase" | "cbverify" | "withdraw" => {}
             other => {
                 eprintln!("C06 node: malformed op {other}");
                 std::process::exit(3);
@@ -1282,9 +2305,17 @@ pub fn run(opts: &Opts) {
         } else {
             let mut rng = Rng::new(opts.seed);
             let cases = (if opts.thorough() { 700 } else { 90 }) * opts.scale.max(1);
-            for _ in 0..cases {
-                let lines = gen_scenario(&mut rng, opts.thorough());
-                run_scenario(&lines, "node", opts, &mut ctx);
+            for k in 0..cases {
+                // one NervosDAO scenario (about 370 blocks) per 45 cases, linear "insufficient
+                // reward / miner locks" scenarios for a third of the rest
+                let (lines, label) = if k % 45 == 7 {
+                    (gen_scenario_dao(&mut rng, opts.thorough()), "node-dao")
+                } else if k % 3 == 1 {
+                    (gen_scenario_linear(&mut rng, opts.thorough()), "node-linear")
+                } else {
+                    (gen_scenario(&mut rng, opts.thorough()), "node")
+                };
+                run_scenario(&lines, label, opts, &mut ctx);
             }
         }
     }
